@@ -39,6 +39,8 @@ type C16Case struct {
 	CFListSpelling string
 	// SenderIDUpper writes the NetID in upper-case hex digits (the answer mirrors it verbatim)
 	SenderIDUpper bool
+	// MACVersion of the request ("" = the default "1.1.0"); the derivation follows OptNeg, not this string
+	MACVersion string
 	JoinNonce      int
 	NSKEK          []byte // nil = no KEK for the network server
 	ASKEK          []byte
@@ -94,7 +96,7 @@ func (k C16Case) Body() []byte {
 	}
 	m := map[string]interface{}{
 		"ProtocolVersion": "1.0", "SenderID": hex.EncodeToString(k.NetID[:]), "ReceiverID": hex.EncodeToString(k.JoinEUI[:]),
-		"TransactionID": k.TxID, "MessageType": mt, "MACVersion": "1.1.0", "PHYPayload": hex.EncodeToString(k.PHY()),
+		"TransactionID": k.TxID, "MessageType": mt, "MACVersion": k.macVersion(), "PHYPayload": hex.EncodeToString(k.PHY()),
 		"DevEUI": hex.EncodeToString(k.DevEUI[:]), "DevAddr": fmt.Sprintf("%08x", k.DevAddr), "DLSettings": fmt.Sprintf("%02x", k.DL), "RxDelay": k.RxDelay,
 	}
 	if k.CFList != nil {
@@ -109,6 +111,13 @@ func (k C16Case) Body() []byte {
 	}
 	b, _ := json.Marshal(m)
 	return b
+}
+
+func (k C16Case) macVersion() string {
+	if k.MACVersion == "" {
+		return "1.1.0"
+	}
+	return k.MACVersion
 }
 
 // C16Handler builds a join-server for a set of cases (device keys by DevEUI);
@@ -538,6 +547,20 @@ func runC16(r *engine.Run) {
 			return
 		}
 		c.Outcome("callback-errors/" + wantCode)
+	})
+	// ---- B5: the MACVersion string of the request x OptNeg x kind: the key derivation (and the
+	// join-accept form) follow OptNeg whatever version string the network server reports
+	macVersions := []string{"1.0.0", "1.0.2", "1.0.3", "1.0.4", "1.1.0", "1.1.1", "2.0.0"}
+	r.PartDims("B5/mac-version-string", []string{fmt.Sprintf("MACVersion:%d", len(macVersions)), "optneg", "kind:4"}, uint64(len(macVersions)*2*4), func(c *engine.Case) {
+		k := baseCase()
+		k.MACVersion = macVersions[c.Index%uint64(len(macVersions))]
+		if (c.Index/uint64(len(macVersions)))%2 == 1 {
+			k.DL |= 0x80
+		}
+		k.Kind = int(c.Index / uint64(len(macVersions)) / 2)
+		k.NSKEK, k.ASKEK = c16KEK16, c16KEK16
+		judge(c, k, C16Handler([]C16Case{k}, nil))
+		c.Outcome("mac-version-string")
 	})
 	// ---- C: KEK configurations
 	spC := (&engine.Space{}).Dim("ns kek{none,16,32}", 3).Dim("as kek{none,16}", 2).Dim("optneg", 2).Dim("kind", 4)
